@@ -1,7 +1,8 @@
 /-
   Oracle commands for C08 (blob cache).  `hash` of the model is instantiated with SHA-256.
 
-    hist <fixed 0|1> <nops> op*            -> r1;r2;… | blobs | manifests     (final disk)
+    hist <Link variant 0|1|2> <nops> op*   -> r1;r2;… | blobs | manifests     (final disk)
+        variant 0 = pinned in-place Link, 1 = temp+rename (fix 834f6be9a), 2 = 1 + zero-length refusal (C08-F8-zero.patch)
         op = put <d> <size> <script> | import <size> <script> | get <d> | link <name> <d>
            | unlink <name> | resolve <name> | chunk <d> <size> <start> <stop> <cd> <script>
         script = <nchunks> <hex>* (eof|err)
@@ -87,8 +88,8 @@ def outDigests : Out → List Digest
 
 def showPath (p : MPath) : String := joinWith "/" (p.map hexOrDash)
 
-def histCmd (fixed : Bool) (ops : List Op) : String :=
-  let r := runOps H fixed ops Disk.empty
+def histCmd (fixed zc : Bool) (ops : List Op) : String :=
+  let r := runOps H fixed zc ops Disk.empty
   let keys := (ops.flatMap opDigests ++ r.2.flatMap outDigests).map hexOf
   let keys := (keys.toArray.qsort (· < ·)).toList.eraseDups
   let blobs := keys.filterMap fun kx =>
@@ -176,7 +177,7 @@ def handle (toks : List String) : Option String :=
     runTP (do
       let fixed ← nat
       let ops ← listOf pOp
-      pure (histCmd (fixed != 0) ops)) rest
+      pure (histCmd (fixed != 0) (fixed == 2) ops)) rest
   | "crash" :: "put" :: rest =>
     runTP (do
       let init ← pSt; let d ← hex; let size ← nat; let s ← pScript; let kd ← pKind; let n ← nat
